@@ -377,6 +377,12 @@ class Server(_Server_):
                 conn.close()
                 sys.exit(1)
 
+            # Do not hold on to the request and the response while blocked waiting for the
+            # next request: they may contain proxies (an argument that is a proxy, a returned
+            # `managed` value), which would keep the hosted objects alive until this client
+            # happens to make its next call.
+            request = args = kwds = msg = None
+
     def debug_info(self, c):
         with self.mutex:
             return [
